@@ -560,7 +560,7 @@ impl Check for C12 {
         }
     }
     fn rule(&self) -> String {
-        "definitions = every ordered tuple of <=3 distinct fields from 15 kinds (switch, env argument, short-only argument, hidden switch, aliases, alternative, group_help group, with_group_help, displayed fallback, hide_usage, custom_usage, the same item in two alternatives, adjacent group, repeated argument with a two-paragraph help, optional group) x 8 tails (none, positional with / without help, strict positional, choice of commands incl. a hidden one and aliases, nested commands of depth 3, a command beside a flag in one titled group, command paths differing only in dash versus nesting) x 4 option-level configurations; for EVERY command level reachable by visible commands the --help text is checked against an independent visibility calculator: each visible item has exactly one row with its first short/long name, metavariable and first help paragraph, env state shown (variable unset, and holding a value with a blank line), no option-like token that is not a visible name (hidden items, alias names, hidden commands never shown), command rows only for visible commands, the help flag listed under the options heading and positionals not under it, descr < usage < header < lists < footer, each shown name accepted by the parser; hide_usage/custom_usage applied to every field leave everything after the usage block identical; evaluation = one run; non-trivial = level with all clauses satisfied; plus a command as one branch of a choice beside a word-taking branch (both orders) and --help behind earlier members of a chain of adjacent commands (text of the last command, path prefix of the usage line ignored)".into()
+        "definitions = every ordered tuple of <=3 distinct fields from 15 kinds (switch, env argument, short-only argument, hidden switch, aliases, alternative, group_help group, with_group_help, displayed fallback, hide_usage, custom_usage, the same item in two alternatives, adjacent group, repeated argument with a two-paragraph help, optional group) x 8 tails (none, positional with / without help, strict positional, choice of commands incl. a hidden one and aliases, nested commands of depth 3, a command beside a flag in one titled group, command paths differing only in dash versus nesting) x 4 option-level configurations; for EVERY command level reachable by visible commands the --help text is checked against an independent visibility calculator: each visible item has exactly one row with its first short/long name, metavariable and first help paragraph, env state shown (variable unset, and holding a value with a blank line), no option-like token that is not a visible name (hidden items, alias names, hidden commands never shown), command rows only for visible commands, the help flag listed under the options heading and positionals not under it, descr < usage < header < lists < footer, each shown name accepted by the parser; hide_usage/custom_usage applied to every field leave everything after the usage block identical; evaluation = one run; non-trivial = level with all clauses satisfied; plus a command as one branch of a choice beside a word-taking branch (both orders) and --help behind earlier members of a chain of adjacent commands (text of the last command, path prefix of the usage line ignored); plus usage annotations inside a field's outermost wrapper, a help of styled fragments with the paragraph break in the middle, a command and a positional spelled alike".into()
     }
     fn bounds(&self, tier: Tier) -> Value {
         json!({"fields": "<=3 of 15 kinds + tail", "levels": "every command path, depth <=3"})
